@@ -320,6 +320,53 @@ CURATED_TERMS = [
     ('OneOrMore', ('Anchor', 'bos', ('Concat', ('args', S_('word'), ('WordBoundary',)))), True),
     ('OneOrMore', ('Anchor', 'bos', ('WordBoundary',)), True),
     ('Indefinite', ('Look', 'ahead', True, ('Look', 'behind', False, S_('w'), ('args', S_('-'))), ('args', S_('!'))), True),
+    # large parameters, many operands, positions (round 4)
+    ('Look', 'behind', True, S_('x'), ('args', ('AtLeastAtMost', ('AnyDigit',), ('i', 10), ('i', 12), True))),
+    ('Look', 'behind', False, S_('x'), ('args', ('AtLeast', S_('a'), ('i', 10), True))),
+    ('Look', 'both', True, S_('x'), ('args', ('AtMost', S_('a'), ('i', 12), True))),
+    ('Look', 'behind', True, S_('x'), ('args', ('Exactly', ('AnyDigit',), ('i', 12)))),
+    ('Look', 'behind', False, ('AnyDigit',), ('args', ('Either', ('args', S_('+'), S_('-'))), ('AnyFrom', (97, 98)))),
+    ('Look', 'behind', True, S_('x'), ('args', ('Either', ('args', S_('ab'), S_('c'))), S_('d'))),
+    ('Look', 'behind', True, S_('x'), ('args', S_('d'), ('Either', ('args', S_('ab'), S_('cd'))))),
+    ('Look', 'both', False, S_('x'), ('args', ('Either', ('args', S_('a'), S_('b'))), ('Either', ('args', S_('c'), S_('de'))))),
+    ('Look', 'behind', True, S_('x'), ('args', ('Look', 'ahead', True, S_('a'), ('args', ('Exactly', ('Concat', ('args', ('Either', ('args', S_('b'), ('OneOrMore', S_('c'), True))), S_('d'))), ('i', 2)))))),
+    ('Look', 'behind', False, S_('x'), ('args', ('Look', 'ahead', False, S_('ab'), ('args', ('Group', ('Concat', ('args', ('Group', ('Optional', S_('c'), True), False), S_('d'))), False))))),
+    S_('((x)'), S_('(x))'), S_('[0]]'), S_('f(x)*g(y)'), ('Concat', ('args', S_('a'), S_('((x)'), ('Optional', S_('[[a]'), True))),
+    ('OneOrMore', ('Anchor', 'bos', ('Either', ('args', S_('x'), ('Capture', ('Concat', ('args', S_('a'), ('Capture', ('Concat', ('args', S_('b'), ('Capture', S_('c'), ('none',)))), ('none',)))), ('none',))))), True),
+    ('Exactly', ('Look', 'ahead', True, ('Either', ('args', S_('x'), ('Group', ('Concat', ('args', S_('a'), ('Group', ('Concat', ('args', S_('b'), ('Group', ('Concat', ('args', S_('c'), ('Group', S_('d'), False))), False))), False))), False))), ('args', S_('y'))), ('i', 2)),
+    ('Mul', ('Anchor', 'eol', S_('a')), ('i', 0)), ('Mul', ('Anchor', 'eol', S_('a')), ('i', 1)), ('Mul', ('Look', 'ahead', True, S_('a'), ('args', S_('b'))), ('i', 1)),
+    ('OneOrMore', ('Look', 'ahead', True, ('Concat', ('args', ('WordBoundary',), S_('word'))), ('args', S_('-'))), True),
+    ('Indefinite', ('Anchor', 'bol', ('Look', 'ahead', False, S_('word'), ('args', S_('s')))), True),
+    ('AtLeast', ('Anchor', 'eol', ('Look', 'behind', False, S_('word'), ('args', S_('s')))), ('i', 2), True),
+    S_('.' * 30), S_('a.b|c' * 8), S_('C:\\dir\\sub.d\\f(1).txt' * 2), ('Pregex', tuple(ord(c) for c in '^$' * 14)),
+    ('Concat', ('args', S_('x'), S_('+' * 26), S_('y'))),
+    S_("'hello'"), ('Pregex', tuple(ord(c) for c in '"hi"')), ('Concat', ('args', S_('say '), S_('"hi"'))), ('Enclose', ('args', S_('word'), S_("'"))),
+    ('Pregex', tuple(ord(c) for c in 'it\'s "x\"')), ('Either', ('args', S_("'a"), S_('b"'))),
+    ('Enclose', ('args', ('Concat', ('args', CAP_A, ('Backreference', ('i', 1)))), S_('7'))),
+    ('Enclose', ('args', ('Concat', ('args', CAP_A, ('Backreference', ('i', 1)))), S_('00'))),
+    ('Enclose', ('args', S_('p'), S_('a'), S_('b'), S_('c'))),
+    ('Enclose', ('args', S_('p'), S_('a'), ('Either', ('args', S_('b'), S_('c'))), S_('d'), S_('e'))),
+    ('Either', ('args', S_('foo'), S_('bar'), ('Pregex', ()), S_('qux'))),
+    ('Either', ('args', S_('a'), S_('b'), S_(''), S_('c'), S_('d'))),
+    ('Either', ('args', S_('a'), ('Pregex', ()), S_('b'), S_('c'), S_('d'), S_('e'))),
+    ('Concat', ('args', S_('a'), S_('b'), ('Pregex', ()), S_('c'), ('Exactly', S_('z'), ('i', 0)), S_('d'))),
+    ('Concat', ('args', S_('x'), ('AtLeastAtMost', ('Pregex', ()), ('i', 10), ('i', 20), True), S_('y'))),
+    ('Concat', ('args', S_('x'), ('Exactly', S_(''), ('i', 100)), S_('y'))),
+    ('Concat', ('args', S_('x'), ('AtLeast', ('Concat', ('args',)), ('i', 12), False), S_('y'))),
+    ('Concat', ('args', S_('x'), ('AtMost', ('Pregex', ()), ('i', 10), True), S_('y'))),
+    ('AtLeastAtMost', S_('ab'), ('i', 2), ('i', 10), True), ('AtLeastAtMost', S_('ab'), ('i', 9), ('i', 10), False),
+    ('AtLeastAtMost', S_('a'), ('i', 5), ('i', 100), True), ('AtLeastAtMost', S_('a'), ('i', 10), ('i', 9), True),
+    ('AtLeastAtMost', S_('a'), ('i', 12), ('i', 3), True), ('AtLeastAtMost', S_('a'), ('i', 100), ('i', 20), True),
+    ('AtLeastAtMost', S_('ab'), ('i', 10), ('float10',), True), ('AtLeastAtMost', S_('ab'), ('i', 2), ('float2',), True),
+    ('Exactly', ('Group', S_('ab'), True), ('i', 3)), ('Mul', ('Group', S_('ab'), True), ('i', 10)), ('OneOrMore', ('Group', S_('ab'), True), False),
+    ('Capture', ('Group', S_('ab'), True), ('name', 'n')), ('Capture', ('Group', ('Either', ('args', S_('a'), S_('b'))), True), ('name', 'k')),
+    ('Capture', ('Capture', ('Capture', ('Capture', ('Capture', S_('d'), ('none',)), ('none',)), ('none',)), ('none',)), ('none',)),
+    ('Capture', ('Concat', ('args', S_('a'), ('Capture', ('Concat', ('args', S_('b'), ('Capture', ('Concat', ('args', S_('c'), ('Capture', S_('d'), ('none',)))), ('none',)))), ('none',)))), ('name', 'n')),
+    ('Group', ('Concat', ('args', S_('a'), ('Capture', ('Concat', ('args', S_('b'), ('Capture', ('Concat', ('args', S_('c'), ('Capture', ('Concat', ('args', S_('d'), ('Capture', S_('e'), ('none',)))), ('none',)))), ('none',)))), ('none',)))), False),
+    ('Concat', ('args', ('Optional', CAP_N, True), ('Conditional', ('name', 'n'), ('Either', ('args', S_('B'), S_('C')))))),
+    ('Concat', ('args', ('Optional', CAP_N, True), ('Conditional', ('name', 'n'), ('Either', ('args', S_('B'), S_('C'), S_('D')))))),
+    ('Concat', ('args', ('Optional', CAP_N, True), ('Conditional', ('name', 'n'), S_('x'), ('Capture', ('Either', ('args', S_(';'), S_('!'))), ('name', 'k'))))),
+    ('Concat', ('args', ('Optional', CAP_N, True), ('Conditional', ('name', 'n'), S_('x'), ('Group', ('Either', ('args', S_('a'), S_('b'))), True)))),
 ]
 
 
